@@ -728,6 +728,41 @@ func formatCorners(c *Ctx) {
 		c.PropFail("valid-archive-refused", fmt.Sprintf("a zip whose only owner record is the unix2 field (uid 7, gid 8) scans to %s; with the unix3 field for the same owner it scans to %s", a, b), op)
 		c.PropFail("roundtrip-id", fmt.Sprintf("unix2-only zip scans to %s, unix3 zip of the same entry to %s", a, b), op)
 	}
+	// (2b) the unix3 block stores each id with a width of its own (2 or 4 bytes): every combination names the same owner
+	{
+		ref := ""
+		for _, blk := range [][]byte{
+			{0x75, 0x78, 11, 0, 1, 4, 0x70, 0x11, 0x01, 0, 4, 100, 0, 0, 0}, // uid 70000 (4), gid 100 (4)
+			{0x75, 0x78, 9, 0, 1, 4, 0x70, 0x11, 0x01, 0, 2, 100, 0},        // uid 70000 (4), gid 100 (2)
+		} {
+			pth := filepath.Join(base, fmt.Sprintf("ux3-%d.zip", len(blk)))
+			mkzip(pth, blk)
+			got := scan("zip", pth)
+			c.H("corner:zip-unix3-widths:" + strings.Fields(got)[0])
+			if ref == "" {
+				ref = got
+			} else if strings.HasPrefix(ref, "ok ") && got != ref {
+				c.PropFail("roundtrip-id", fmt.Sprintf("a zip whose unix3 owner block stores uid 70000 in 4 bytes and gid 100 in 2 scans to %s; with both ids in 4 bytes to %s", got, ref), op)
+			}
+		}
+		ref = ""
+		for _, blk := range [][]byte{
+			{0x75, 0x78, 11, 0, 1, 4, 7, 0, 0, 0, 4, 0x70, 0x11, 0x01, 0}, // uid 7 (4), gid 70000 (4)
+			{0x75, 0x78, 9, 0, 1, 2, 7, 0, 4, 0x70, 0x11, 0x01, 0},       // uid 7 (2), gid 70000 (4)
+		} {
+			pth := filepath.Join(base, fmt.Sprintf("ux3b-%d.zip", len(blk)))
+			mkzip(pth, blk)
+			got := scan("zip", pth)
+			c.H("corner:zip-unix3-widths:" + strings.Fields(got)[0])
+			if got == "panic" {
+				c.PropFail("panic-scan", "a zip whose unix3 owner block stores the uid in 2 bytes and the gid in 4 made the scan panic", op)
+			} else if ref == "" {
+				ref = got
+			} else if strings.HasPrefix(ref, "ok ") && got != ref {
+				c.PropFail("roundtrip-id", fmt.Sprintf("a zip whose unix3 owner block stores uid 7 in 2 bytes and gid 70000 in 4 scans to %s; with both ids in 4 bytes to %s", got, ref), op)
+			}
+		}
+	}
 	// (3)
 	for _, when := range []int64{-152668433, 4423000000, -1, 4294967296, 4294967295, 0} {
 		src := filepath.Join(base, fmt.Sprintf("zt%d", when))
